@@ -163,31 +163,7 @@ func inlinable(c candidate) string {
 			return "generic receiver"
 		}
 	}
-	why := ""
-	ast.Inspect(c.fd.Body, func(n ast.Node) bool {
-		switch x := n.(type) {
-		case *ast.FuncLit:
-			return false
-		case *ast.DeferStmt:
-			why = "defer"
-		case *ast.CallExpr:
-			if id, ok := x.Fun.(*ast.Ident); ok {
-				if id.Name == "recover" {
-					why = "recover"
-				}
-				if o := c.pkg.TypesInfo.Uses[id]; o != nil && o == types.Object(c.obj) {
-					why = "recursive"
-				}
-			}
-			if se, ok := x.Fun.(*ast.SelectorExpr); ok {
-				if o := c.pkg.TypesInfo.Uses[se.Sel]; o != nil && o == types.Object(c.obj) {
-					why = "recursive"
-				}
-			}
-		}
-		return true
-	})
-	return why
+	return bodyReason(c.pkg, c.fd.Body, c.obj)
 }
 
 type normaliser struct {
@@ -199,6 +175,7 @@ type normaliser struct {
 	info   *normInfo
 	edits  map[string][]textEdit // absolute file → edits
 	addImp map[string]map[string]string
+	litOf  map[*types.Var]*ast.FuncLit // parameters of expanded helpers that are bound to a function literal
 }
 
 func (N *normaliser) src(file string) []byte {
@@ -213,6 +190,20 @@ func (N *normaliser) text(n ast.Node) string {
 		return ""
 	}
 	return string(b[p.Offset:e.Offset])
+}
+
+// calleeDesc describes what is expanded at a call: a declared function / method outside the vocabulary, or a
+// function literal bound once to a local variable that is only ever called.
+type calleeDesc struct {
+	name   string
+	pkg    *packages.Package // package whose TypesInfo covers the body
+	ftype  *ast.FuncType
+	recv   *ast.FieldList
+	body   *ast.BlockStmt
+	sig    *types.Signature
+	reason string       // why it cannot be expanded in general ("" = it can; "defer" = only in tail position)
+	lit    *ast.FuncLit // for a literal: the literal (blanked once its call is expanded)
+	fn     *types.Func  // for a declared function
 }
 
 // staticCallee resolves a call to a candidate function (plain function or method called on a value).
@@ -245,8 +236,86 @@ func (N *normaliser) staticCallee(pkg *packages.Package, call *ast.CallExpr) (*t
 	return nil, nil
 }
 
-// firstEligibleCall finds, in statement s, the first call of a candidate function that may be hoisted in front of s.
-func (N *normaliser) firstEligibleCall(pkg *packages.Package, s ast.Stmt) (*ast.CallExpr, *types.Func, ast.Expr) {
+// litCallee: call of a local variable that is defined exactly once, by a function literal, and used exactly once
+// (this call) inside a function introduced by an expansion or outside the vocabulary.
+func (N *normaliser) litCallee(pkg *packages.Package, call *ast.CallExpr) *calleeDesc {
+	id, ok := call.Fun.(*ast.Ident)
+	if !ok {
+		return nil
+	}
+	v, ok := pkg.TypesInfo.Uses[id].(*types.Var)
+	if !ok || v.IsField() || v.Parent() == nil || v.Parent() == pkg.Types.Scope() {
+		return nil
+	}
+	if !strings.HasPrefix(v.Name(), "__p") {
+		return nil // only parameters of expanded helpers (bound by the expansion itself, never reassigned by construction)
+	}
+	uses := 0
+	for _, o := range pkg.TypesInfo.Uses {
+		if o == types.Object(v) {
+			uses++
+		}
+	}
+	lit := N.litOf[v]
+	if lit == nil || uses != 2 { // the call and the `_ = p` that keeps the binding used
+		return nil
+	}
+	sig, _ := pkg.TypesInfo.TypeOf(lit).(*types.Signature)
+	if sig == nil {
+		return nil
+	}
+	d := &calleeDesc{name: "func literal bound to " + v.Name(), pkg: pkg, ftype: lit.Type, body: lit.Body, sig: sig, lit: lit}
+	d.reason = bodyReason(pkg, lit.Body, nil)
+	return d
+}
+
+// bodyReason: why a body cannot be expanded ("" = it can).
+func bodyReason(pkg *packages.Package, body *ast.BlockStmt, self *types.Func) string {
+	why := ""
+	ast.Inspect(body, func(n ast.Node) bool {
+		switch x := n.(type) {
+		case *ast.FuncLit:
+			return false
+		case *ast.DeferStmt:
+			if why == "" {
+				why = "defer"
+			}
+		case *ast.CallExpr:
+			if id, ok := x.Fun.(*ast.Ident); ok {
+				if id.Name == "recover" {
+					why = "recover"
+				}
+				if o := pkg.TypesInfo.Uses[id]; self != nil && o == types.Object(self) {
+					why = "recursive"
+				}
+			}
+			if se, ok := x.Fun.(*ast.SelectorExpr); ok {
+				if o := pkg.TypesInfo.Uses[se.Sel]; self != nil && o == types.Object(self) {
+					why = "recursive"
+				}
+			}
+		}
+		return true
+	})
+	return why
+}
+
+func (N *normaliser) descOf(pkg *packages.Package, call *ast.CallExpr) (*calleeDesc, ast.Expr) {
+	if o, recv := N.staticCallee(pkg, call); o != nil {
+		if c, isCand := N.cands[o]; isCand {
+			sig := o.Type().(*types.Signature)
+			return &calleeDesc{name: c.name, pkg: c.pkg, ftype: c.fd.Type, recv: c.fd.Recv, body: c.fd.Body, sig: sig, reason: N.reason[o], fn: o}, recv
+		}
+		return nil, nil
+	}
+	if d := N.litCallee(pkg, call); d != nil {
+		return d, nil
+	}
+	return nil, nil
+}
+
+// firstEligibleCall finds, in statement s, the first call of a candidate that may be hoisted in front of s.
+func (N *normaliser) firstEligibleCall(pkg *packages.Package, s ast.Stmt) (*ast.CallExpr, *calleeDesc, ast.Expr) {
 	var roots []ast.Node
 	switch x := s.(type) {
 	case *ast.ExprStmt:
@@ -307,8 +376,13 @@ func (N *normaliser) firstEligibleCall(pkg *packages.Package, s ast.Stmt) (*ast.
 	default:
 		return nil, nil, nil
 	}
+	// tail position: `return f(…)` — the callee's defers run where they ran before
+	isTail := func(c *ast.CallExpr) bool {
+		rs, ok := s.(*ast.ReturnStmt)
+		return ok && len(rs.Results) == 1 && rs.Results[0] == ast.Expr(c)
+	}
 	var found *ast.CallExpr
-	var fobj *types.Func
+	var fdesc *calleeDesc
 	var frecv ast.Expr
 	blocked := false
 	var walk func(n ast.Node)
@@ -345,13 +419,9 @@ func (N *normaliser) firstEligibleCall(pkg *packages.Package, s ast.Stmt) (*ast.
 					return
 				}
 			}
-			if o, recv := N.staticCallee(pkg, x); o != nil {
-				if _, isCand := N.cands[o]; isCand && N.reason[o] == "" {
-					// nothing inside its own operands may be another (not expandable) call evaluated first? — they are
-					// evaluated in the binding, in the same order, so they are fine
-					found, fobj, frecv = x, o, recv
-					return
-				}
+			if d, recv := N.descOf(pkg, x); d != nil && (d.reason == "" || d.reason == "defer" && isTail(x)) {
+				found, fdesc, frecv = x, d, recv
+				return
 			}
 			// a call that stays: its operands are evaluated before it, so a candidate among them may still be hoisted;
 			// the call itself then blocks everything that is evaluated after it
@@ -394,7 +464,7 @@ func (N *normaliser) firstEligibleCall(pkg *packages.Package, s ast.Stmt) (*ast.
 	if found == nil {
 		return nil, nil, nil
 	}
-	return found, fobj, frecv
+	return found, fdesc, frecv
 }
 
 func containsCall(pkg *packages.Package, n ast.Node) bool {
@@ -451,12 +521,11 @@ func (N *normaliser) typeText(pkg *packages.Package, file *ast.File, t types.Typ
 }
 
 // expand builds the edits for one call site; returns a reason when it cannot.
-func (N *normaliser) expand(pkg *packages.Package, file *ast.File, encl *ast.FuncDecl, s ast.Stmt, call *ast.CallExpr, fobj *types.Func, recvExpr ast.Expr) string {
-	c := N.cands[fobj]
-	if c.pkg.Types != pkg.Types {
+func (N *normaliser) expand(pkg *packages.Package, file *ast.File, encl *ast.FuncDecl, s ast.Stmt, call *ast.CallExpr, d *calleeDesc, recvExpr ast.Expr) string {
+	if d.pkg.Types != pkg.Types {
 		return "callee in another package"
 	}
-	sig := fobj.Type().(*types.Signature)
+	sig := d.sig
 	if sig.Variadic() {
 		return "variadic"
 	}
@@ -465,84 +534,38 @@ func (N *normaliser) expand(pkg *packages.Package, file *ast.File, encl *ast.Fun
 	}
 	N.seq++
 	id := N.seq
-	calleeFile := N.fset.Position(c.fd.Pos()).Filename
+	calleeFile := N.fset.Position(d.body.Pos()).Filename
 	csrc := N.src(calleeFile)
-	// ---- the body text with returns, labels and package names rewritten
-	bodyStart := N.fset.Position(c.fd.Body.Lbrace).Offset + 1
-	bodyEnd := N.fset.Position(c.fd.Body.Rbrace).Offset
-	var bedits []textEdit
 	nres := sig.Results().Len()
 	rnames := make([]string, nres)
 	for i := range rnames {
 		rnames[i] = fmt.Sprintf("__r%d_%d", id, i)
 	}
 	label := fmt.Sprintf("__L%d", id)
-	var named []string
-	if c.fd.Type.Results != nil {
-		for _, f := range c.fd.Type.Results.List {
-			for _, n := range f.Names {
-				named = append(named, n.Name)
+	// ---- receiver, parameters and named results get names of their own (so that they cannot shadow a name the
+	// caller's argument expressions or a function literal among them refer to)
+	rename := map[types.Object]string{}
+	uniq := func(idn *ast.Ident, k int) string {
+		nn := fmt.Sprintf("__p%d_%d", id, k)
+		if idn != nil && idn.Name != "_" {
+			nn = fmt.Sprintf("__p%d_%s", id, idn.Name)
+			if o := d.pkg.TypesInfo.Defs[idn]; o != nil {
+				rename[o] = nn
 			}
 		}
+		return nn
 	}
-	capture := ""
-	var walk func(n ast.Node) bool
-	walk = func(n ast.Node) bool {
-		switch x := n.(type) {
-		case *ast.FuncLit:
-			// returns inside belong to the literal; identifiers inside still need the package-name / capture treatment
-			ast.Inspect(x.Body, func(m ast.Node) bool {
-				if idn, ok := m.(*ast.Ident); ok {
-					N.identEdit(pkg, file, c, idn, call.Pos(), &bedits, &capture)
-				}
-				return true
-			})
-			return false
-		case *ast.ReturnStmt:
-			p, e := N.fset.Position(x.Pos()).Offset, N.fset.Position(x.End()).Offset
-			var t string
-			switch {
-			case nres == 0:
-				t = "{ break " + label + " }"
-			case len(x.Results) == 0:
-				t = "{ " + strings.Join(rnames, ", ") + " = " + strings.Join(named, ", ") + "; break " + label + " }"
-			default:
-				// the result expressions keep their own text (with nested identifier edits applied separately is not
-				// possible inside a replaced range, so rewrite them here)
-				var parts []string
-				for _, r := range x.Results {
-					parts = append(parts, N.rewriteExpr(pkg, file, c, r, call.Pos(), &capture))
-				}
-				t = "{ " + strings.Join(rnames, ", ") + " = " + strings.Join(parts, ", ") + "; break " + label + " }"
-			}
-			bedits = append(bedits, textEdit{p, e - p, t})
-			return false
-		case *ast.LabeledStmt:
-			p := N.fset.Position(x.Label.Pos()).Offset
-			bedits = append(bedits, textEdit{p + len(x.Label.Name), 0, fmt.Sprintf("_%d", id)})
-		case *ast.BranchStmt:
-			if x.Label != nil {
-				p := N.fset.Position(x.Label.Pos()).Offset
-				bedits = append(bedits, textEdit{p + len(x.Label.Name), 0, fmt.Sprintf("_%d", id)})
-			}
-			return false
-		case *ast.Ident:
-			N.identEdit(pkg, file, c, x, call.Pos(), &bedits, &capture)
-		}
-		return true
-	}
-	ast.Inspect(c.fd.Body, walk)
-	if capture != "" {
-		return "a name of the body would be captured by the caller's local " + capture
-	}
-	body := applyEdits(csrc[bodyStart:bodyEnd], bedits, bodyStart)
-	// ---- parameter bindings
 	var lhs, rhs, use []string
-	if c.fd.Recv != nil && len(c.fd.Recv.List) > 0 {
-		rn := fmt.Sprintf("__recv%d", id)
-		if len(c.fd.Recv.List[0].Names) > 0 && c.fd.Recv.List[0].Names[0].Name != "_" {
-			rn = c.fd.Recv.List[0].Names[0].Name
+	var litParams []struct {
+		name string
+		lit  *ast.FuncLit
+	}
+	if d.recv != nil && len(d.recv.List) > 0 {
+		var rid *ast.Ident
+		if len(d.recv.List[0].Names) > 0 {
+			rid = d.recv.List[0].Names[0]
 		}
+		rn := uniq(rid, -1)
 		if recvExpr == nil {
 			return "method expression"
 		}
@@ -560,25 +583,96 @@ func (N *normaliser) expand(pkg *packages.Package, file *ast.File, encl *ast.Fun
 		lhs, rhs, use = append(lhs, rn), append(rhs, rx), append(use, rn)
 	}
 	k := 0
-	if c.fd.Type.Params != nil {
-		for _, f := range c.fd.Type.Params.List {
+	if d.ftype.Params != nil {
+		for _, f := range d.ftype.Params.List {
 			names := f.Names
 			if len(names) == 0 {
-				names = []*ast.Ident{{Name: "_"}}
+				names = []*ast.Ident{nil}
 			}
 			for _, n := range names {
-				pn := n.Name
-				if pn == "_" {
-					pn = fmt.Sprintf("__p%d_%d", id, k)
-				}
-				// typed binding so that untyped constants and nil take the parameter's type
+				pn := uniq(n, k)
 				lhs = append(lhs, pn)
 				rhs = append(rhs, "("+N.typeText(pkg, file, sig.Params().At(k).Type())+")("+N.text(call.Args[k])+")")
 				use = append(use, pn)
+				if fl, ok := ast.Unparen(call.Args[k]).(*ast.FuncLit); ok {
+					litParams = append(litParams, struct {
+						name string
+						lit  *ast.FuncLit
+					}{pn, fl})
+				}
 				k++
 			}
 		}
 	}
+	var named []string
+	var namedDecl strings.Builder
+	if d.ftype.Results != nil {
+		i := 0
+		for _, f := range d.ftype.Results.List {
+			for _, n := range f.Names {
+				nn := uniq(n, 100+i)
+				named = append(named, nn)
+				fmt.Fprintf(&namedDecl, "var %s %s; _ = %s; ", nn, N.typeText(pkg, file, sig.Results().At(i).Type()), nn)
+				i++
+			}
+			if len(f.Names) == 0 {
+				i++
+			}
+		}
+	}
+	// ---- the body text with returns, labels, package names and the renamed identifiers rewritten
+	bodyStart := N.fset.Position(d.body.Lbrace).Offset + 1
+	bodyEnd := N.fset.Position(d.body.Rbrace).Offset
+	var bedits []textEdit
+	capture := ""
+	var walk func(n ast.Node) bool
+	walk = func(n ast.Node) bool {
+		switch x := n.(type) {
+		case *ast.FuncLit:
+			// returns inside belong to the literal; identifiers inside still need the renaming / capture treatment
+			ast.Inspect(x.Body, func(m ast.Node) bool {
+				if idn, ok := m.(*ast.Ident); ok {
+					N.identEdit(pkg, file, d, rename, idn, call.Pos(), &bedits, &capture)
+				}
+				return true
+			})
+			return false
+		case *ast.ReturnStmt:
+			p, e := N.fset.Position(x.Pos()).Offset, N.fset.Position(x.End()).Offset
+			var t string
+			switch {
+			case nres == 0:
+				t = "{ break " + label + " }"
+			case len(x.Results) == 0:
+				t = "{ " + strings.Join(rnames, ", ") + " = " + strings.Join(named, ", ") + "; break " + label + " }"
+			default:
+				var parts []string
+				for _, r := range x.Results {
+					parts = append(parts, N.rewriteExpr(pkg, file, d, rename, r, call.Pos(), &capture))
+				}
+				t = "{ " + strings.Join(rnames, ", ") + " = " + strings.Join(parts, ", ") + "; break " + label + " }"
+			}
+			bedits = append(bedits, textEdit{p, e - p, t})
+			return false
+		case *ast.LabeledStmt:
+			p := N.fset.Position(x.Label.Pos()).Offset
+			bedits = append(bedits, textEdit{p + len(x.Label.Name), 0, fmt.Sprintf("_%d", id)})
+		case *ast.BranchStmt:
+			if x.Label != nil {
+				p := N.fset.Position(x.Label.Pos()).Offset
+				bedits = append(bedits, textEdit{p + len(x.Label.Name), 0, fmt.Sprintf("_%d", id)})
+			}
+			return false
+		case *ast.Ident:
+			N.identEdit(pkg, file, d, rename, x, call.Pos(), &bedits, &capture)
+		}
+		return true
+	}
+	ast.Inspect(d.body, walk)
+	if capture != "" {
+		return "a name of the body would be captured by the caller's local " + capture
+	}
+	body := applyEdits(csrc[bodyStart:bodyEnd], bedits, bodyStart)
 	var sb strings.Builder
 	for i := 0; i < nres; i++ {
 		fmt.Fprintf(&sb, "var %s %s; _ = %s; ", rnames[i], N.typeText(pkg, file, sig.Results().At(i).Type()), rnames[i])
@@ -592,20 +686,7 @@ func (N *normaliser) expand(pkg *packages.Package, file *ast.File, encl *ast.Fun
 		}
 		fmt.Fprintf(&sb, "%s = %s; ", strings.Join(blank, ", "), strings.Join(use, ", "))
 	}
-	if c.fd.Type.Results != nil {
-		i := 0
-		for _, f := range c.fd.Type.Results.List {
-			for _, n := range f.Names {
-				if n.Name != "_" {
-					fmt.Fprintf(&sb, "var %s %s; _ = %s; ", n.Name, N.typeText(pkg, file, sig.Results().At(i).Type()), n.Name)
-				}
-				i++
-			}
-			if len(f.Names) == 0 {
-				i++
-			}
-		}
-	}
+	sb.WriteString(namedDecl.String())
 	fmt.Fprintf(&sb, "\n%s: switch { default:\n%s\nbreak %s\n} }\n", label, body, label)
 	// ---- the call site
 	fn := N.fset.Position(s.Pos()).Filename
@@ -648,19 +729,31 @@ func (N *normaliser) expand(pkg *packages.Package, file *ast.File, encl *ast.Fun
 		}
 	}
 	N.edits[fn] = append(N.edits[fn], textEdit{sOff, 0, sb.String()}, textEdit{cOff, cEnd - cOff, repl})
+	if d.lit != nil {
+		// the literal has been expanded at its only call: it must not stay behind as a second, dead copy
+		lf := N.fset.Position(d.lit.Pos()).Filename
+		lo, le := N.fset.Position(d.lit.Pos()).Offset, N.fset.Position(d.lit.End()).Offset
+		N.edits[lf] = append(N.edits[lf], textEdit{lo, le - lo, "nil"})
+	}
 	callerName := "?"
 	if encl != nil {
 		callerName = declName(pkg, encl)
 	}
-	N.info.Inlined = append(N.info.Inlined, c.name+" ← "+callerName)
+	N.info.Inlined = append(N.info.Inlined, d.name+" ← "+callerName)
 	return ""
 }
 
-// identEdit: package names in the body are spelled as the caller's file imports them; a body identifier that
-// denotes a package-level or universe object must not be shadowed by a local of the caller at the call site.
-func (N *normaliser) identEdit(pkg *packages.Package, file *ast.File, c candidate, idn *ast.Ident, at token.Pos, edits *[]textEdit, capture *string) {
-	o := c.pkg.TypesInfo.Uses[idn]
+// identEdit: package names in the body are spelled as the caller's file imports them; the callee's own receiver,
+// parameters and named results are renamed; a body identifier that denotes a package-level / universe object, or
+// (for a function literal) a variable of the enclosing function, must mean the same thing at the call site.
+func (N *normaliser) identEdit(pkg *packages.Package, file *ast.File, d *calleeDesc, rename map[types.Object]string, idn *ast.Ident, at token.Pos, edits *[]textEdit, capture *string) {
+	o := d.pkg.TypesInfo.Uses[idn]
 	if o == nil {
+		return
+	}
+	if nn, ok := rename[o]; ok {
+		p := N.fset.Position(idn.Pos()).Offset
+		*edits = append(*edits, textEdit{p, len(idn.Name), nn})
 		return
 	}
 	if pn, ok := o.(*types.PkgName); ok {
@@ -671,7 +764,11 @@ func (N *normaliser) identEdit(pkg *packages.Package, file *ast.File, c candidat
 		}
 		return
 	}
-	if o.Parent() == c.pkg.Types.Scope() || o.Parent() == types.Universe {
+	outer := o.Parent() == d.pkg.Types.Scope() || o.Parent() == types.Universe
+	if !outer && d.lit != nil && o.Parent() != nil && !(o.Pos() >= d.lit.Pos() && o.Pos() < d.lit.End()) {
+		outer = true // a variable of the function the literal was written in
+	}
+	if outer {
 		if sc := pkg.Types.Scope().Innermost(at); sc != nil {
 			if _, found := sc.LookupParent(idn.Name, at); found != nil && found != o {
 				*capture = idn.Name
@@ -680,14 +777,14 @@ func (N *normaliser) identEdit(pkg *packages.Package, file *ast.File, c candidat
 	}
 }
 
-// rewriteExpr renders an expression of the body with package names adapted.
-func (N *normaliser) rewriteExpr(pkg *packages.Package, file *ast.File, c candidate, e ast.Expr, at token.Pos, capture *string) string {
+// rewriteExpr renders an expression of the body with package names adapted and the callee's names renamed.
+func (N *normaliser) rewriteExpr(pkg *packages.Package, file *ast.File, d *calleeDesc, rename map[types.Object]string, e ast.Expr, at token.Pos, capture *string) string {
 	start, end := N.fset.Position(e.Pos()).Offset, N.fset.Position(e.End()).Offset
 	src := N.src(N.fset.Position(e.Pos()).Filename)
 	var eds []textEdit
 	ast.Inspect(e, func(m ast.Node) bool {
 		if idn, ok := m.(*ast.Ident); ok {
-			N.identEdit(pkg, file, c, idn, at, &eds, capture)
+			N.identEdit(pkg, file, d, rename, idn, at, &eds, capture)
 		}
 		return true
 	})
@@ -794,7 +891,7 @@ func normalise(repo string, vocab map[string]bool) (*normInfo, error) {
 		if err != nil {
 			return info, fmt.Errorf("normalised copy does not type-check after round %d: %v", round-1, err)
 		}
-		N := &normaliser{pkgs: pkgs, cands: map[*types.Func]candidate{}, reason: map[*types.Func]string{}, info: info, edits: map[string][]textEdit{}, addImp: map[string]map[string]string{}, seq: round * 1000}
+		N := &normaliser{pkgs: pkgs, cands: map[*types.Func]candidate{}, reason: map[*types.Func]string{}, info: info, edits: map[string][]textEdit{}, addImp: map[string]map[string]string{}, seq: round * 1000, litOf: map[*types.Var]*ast.FuncLit{}}
 		if len(pkgs) > 0 {
 			N.fset = pkgs[0].Fset
 		}
@@ -802,7 +899,36 @@ func normalise(repo string, vocab map[string]bool) (*normInfo, error) {
 			N.cands[c.obj] = c
 			N.reason[c.obj] = inlinable(c)
 		}
-		if len(N.cands) == 0 {
+		// parameters of already expanded helpers that are bound to a function literal: `__pN_f := (func() T)(func() T {…})`
+		for _, p := range pkgs {
+			if !strings.HasPrefix(p.PkgPath, "github.com/jhalter/mobius") {
+				continue
+			}
+			for _, f := range p.Syntax {
+				ast.Inspect(f, func(n ast.Node) bool {
+					as, ok := n.(*ast.AssignStmt)
+					if !ok || as.Tok != token.DEFINE || len(as.Lhs) != len(as.Rhs) {
+						return true
+					}
+					for i, l := range as.Lhs {
+						id, ok := l.(*ast.Ident)
+						if !ok || !strings.HasPrefix(id.Name, "__p") {
+							continue
+						}
+						v, _ := p.TypesInfo.Defs[id].(*types.Var)
+						r := ast.Unparen(as.Rhs[i])
+						if c, ok := r.(*ast.CallExpr); ok && len(c.Args) == 1 {
+							r = ast.Unparen(c.Args[0])
+						}
+						if fl, ok := r.(*ast.FuncLit); ok && v != nil {
+							N.litOf[v] = fl
+						}
+					}
+					return true
+				})
+			}
+		}
+		if len(N.cands) == 0 && len(N.litOf) == 0 {
 			break
 		}
 		left := map[string]bool{}
@@ -820,11 +946,11 @@ func normalise(repo string, vocab map[string]bool) (*normInfo, error) {
 					var walkStmt func(s ast.Stmt)
 					walkList = func(list []ast.Stmt) {
 						for _, s := range list {
-							if call, fo, recv := N.firstEligibleCall(p, s); call != nil {
-								if why := N.expand(p, f, fd, s, call, fo, recv); why == "" {
+							if call, dd, recv := N.firstEligibleCall(p, s); call != nil {
+								if why := N.expand(p, f, fd, s, call, dd, recv); why == "" {
 									continue
 								} else {
-									left[N.cands[fo].name+" in "+declName(p, fd)+": "+why] = true
+									left[dd.name+" in "+declName(p, fd)+": "+why] = true
 								}
 							}
 							walkStmt(s)
